@@ -64,7 +64,10 @@ ReqF(d, q) ==
 AcceptOK(d, i, len) == i >= 0 /\ i < d.nb /\ i \in d.reqd /\ len = BlkSize(d.size, i)
 Fresh(d, i)         == i \notin d.got
 
-(* state change of an accepted GotBlock; cls = "good" iff the data are the honest bytes of that range *)
+(* state change of an accepted GotBlock; cls = "good" iff the data are the honest bytes of that range;              *)
+(* "moved" = the honest bytes of ANOTHER block of the same length (right payload under a wrong index: the "swap"    *)
+(* liar); "bad" = anything else.  Only "good" counts for the hash: the hash is a function of the ASSEMBLED bytes     *)
+(* (block contents BY INDEX), never of the order or the multiset of the payloads that arrived.                       *)
 AcceptF(d, i, cls) ==
     [d EXCEPT !.pending = @ - 1, !.got = @ \cup {i}, !.cont = [@ EXCEPT ![i] = cls], !.dup = @ \/ (i \in d.got)]
 
@@ -192,7 +195,7 @@ Disconnect(p) ==
 
 \* (the end-to-end scenarios of MC_Metadata_gen use further scripted variants of "any": total, capmax, junk, proto, nometa,
 \*  forge, huge, neg - see harness/c13/e2e.go; the trace specification only distinguishes "honest" from the rest)
-Policies == {"honest", "any", "sizeplus", "sizeminus", "badlen", "dup", "unreq", "garbage", "reject", "stall", "over", "drop"}
+Policies == {"honest", "any", "sizeplus", "sizeminus", "badlen", "dup", "unreq", "garbage", "reject", "stall", "over", "drop", "swap"}
 
 PolAdv(pol) ==
     CASE pol = "any"       -> cfg.advs
@@ -203,17 +206,24 @@ PolAdv(pol) ==
 
 \* "good" data can only be sent for a range that exists in the true metadata
 CanBeGood(i, len) == len > 0 /\ i * cfg.bs + len <= cfg.tsize
+\* "moved" data are the honest bytes of another block of the same length
+CanBeMoved(i, len) == \E j \in 0 .. (NB(cfg.tsize) - 1) : j # i /\ BlkSize(cfg.tsize, j) = len
 
 PolData(pol, p, i, len, cls) ==
     /\ (cls = "good") => CanBeGood(i, len)
-    /\ CASE pol = "any"       -> TRUE
+    /\ (cls = "moved") => CanBeMoved(i, len)
+    /\ CASE pol = "any"       -> cls # "moved"      \* ("moved" refines "bad": no handler tells them apart)
          [] pol \in {"sizeplus", "sizeminus", "over"} -> i \in inflight[p] /\ len = BlkSize(adv[p], i)
          [] pol = "badlen"    -> i \in inflight[p] /\ len # BlkSize(adv[p], i)
          [] pol = "dup"       -> idl[p] # NoIdl /\ i \in idl[p].reqd /\ len = BlkSize(adv[p], i) /\ cls = "good"
          [] pol = "unreq"     -> idl[p] # NoIdl /\ i \notin idl[p].reqd /\ cls = "good"
          [] pol = "garbage"   -> i \in inflight[p] /\ len = BlkSize(adv[p], i) /\ cls = "bad"
+         \* right payloads, right sizes, every index requested - but two equal-size blocks carry each other's index
+         \* (in whatever ARRIVAL order: the genuine payload order included)
+         [] pol = "swap"      -> i \in inflight[p] /\ len = BlkSize(adv[p], i) /\ cls \in {"good", "moved"}
          [] OTHER             -> FALSE
 
+\* an honest peer answers the pipelined requests in ANY order (\E i \in inflight[p]): C13.live does not depend on it
 HonestData(p) ==
     /\ cfg.pol[p] = "honest"
     /\ \E i \in inflight[p] : Data(p, i, BlkSize(cfg.tsize, i), "good")
@@ -223,7 +233,7 @@ HonestHandshake(p) == cfg.pol[p] = "honest" /\ ExtHandshake(p, cfg.tsize)
 LiarStep(p) ==
     /\ cfg.pol[p] # "honest"
     /\ \/ \E sz \in PolAdv(cfg.pol[p]) : ExtHandshake(p, sz)
-       \/ \E i \in 0 .. (NB(cfg.max) + 1), len \in cfg.lens, cls \in {"good", "bad"} :
+       \/ \E i \in 0 .. (NB(cfg.max) + 1), len \in cfg.lens, cls \in {"good", "bad", "moved"} :
              PolData(cfg.pol[p], p, i, len, cls) /\ Data(p, i, len, cls)
        \/ cfg.pol[p] \in {"any", "reject"} /\ Reject(p)
        \/ cfg.drops /\ cfg.pol[p] \in {"any", "drop", "garbage"} /\ Disconnect(p)
